@@ -39,6 +39,7 @@ class C04(Prop):
 
     def gen(self, rng, ctx):
         c = lang.dense_cfg(rng)
+        c.unless = rng.random() < 0.4        # the `unless` sugar (always[0,b] or until[a,b]) next to the other operators
         if rng.random() < 0.12:
             c.transcend = True
         if rng.random() < 0.2:
@@ -83,7 +84,7 @@ class C04(Prop):
         text = lang.to_text(f)
         if case.get('useed') is not None:
             import random
-            text = lang.unit_text(f, random.Random(case['useed']))       # same durations, unit-suffix notation
+            text = lang.unit_text(f, random.Random(case['useed']), case.get('umode'))       # same durations, unit-suffix notation
             v.info['class:unit-suffixes'] = 1
         start = max(s[0][0] for s in sig.values())
         end = min(s[-1][0] for s in sig.values())
@@ -249,6 +250,16 @@ class C04(Prop):
             names = lang.variables(f)
             for k in range(3):
                 self.check(ctx, {'formula': f, 'signals': sig_text(lang.gen_signals(rng, names)), 'kind': 'ct'})
+            if f[0] in ('since', 'until', 'unless') and f[1] is not None and f[1][1] > 0 and (
+                    ctx.tier == 'thorough' or f[0] == 'unless' or done % 3 == 0):
+                # the binary operators (and the two halves of the `unless` sugar) in every unit-suffix notation: both
+                # ends, the same suffix, a suffix on one end only - which applies to the other end as well
+                for um in ('both', 'same', 'end-only', 'begin-only'):
+                    # (signals that start at 0: nothing here can be attributed to D-dense-origin)
+                    self.check(ctx, {'formula': f, 'signals': sig_text(dict((k, lang.gen_signal(rng, n=rng.choice([4, 5, 6, 8]), start=Fr(0)))
+                                                                            for k in names)), 'kind': 'ct',
+                                     'useed': rng.randrange(1 << 30), 'umode': um})
+                    ctx.count('enumerated-binary-operators-in-unit-notation')
             done += 1
         ctx.count('enumerated-operator-interval-formulas', done)
         # densely against sparsely sampled operands: one variable with 70..300 samples inside a single segment of the
